@@ -66,15 +66,15 @@ func (t T) String() string {
 // Value is a node of the logical content tree.
 type Value struct {
 	T      T       `json:"t"`
-	B      bool    `json:"b,omitempty"`   // Bool
-	I      int64   `json:"i,omitempty"`   // Byte, I16, I32, I64
-	F      uint64  `json:"f,omitempty"`   // Double (IEEE bits)
-	S      []byte  `json:"s,omitempty"`   // String
-	ET     T       `json:"et,omitempty"`  // List/Set element type, Map value type
-	KT     T       `json:"kt,omitempty"`  // Map key type
-	Elems  []Value `json:"e,omitempty"`   // List/Set elements, Map values
-	Keys   []Value `json:"k,omitempty"`   // Map keys
-	Fields []Field `json:"fs,omitempty"`  // Struct fields in wire order
+	B      bool    `json:"b,omitempty"`  // Bool
+	I      int64   `json:"i,omitempty"`  // Byte, I16, I32, I64
+	F      uint64  `json:"f,omitempty"`  // Double (IEEE bits)
+	S      []byte  `json:"s,omitempty"`  // String
+	ET     T       `json:"et,omitempty"` // List/Set element type, Map value type
+	KT     T       `json:"kt,omitempty"` // Map key type
+	Elems  []Value `json:"e,omitempty"`  // List/Set elements, Map values
+	Keys   []Value `json:"k,omitempty"`  // Map keys
+	Fields []Field `json:"fs,omitempty"` // Struct fields in wire order
 }
 
 // Field is one struct field in wire order.
@@ -216,11 +216,11 @@ type Encoder struct {
 	Buf []byte
 }
 
-func (e *Encoder) byte1(b byte)   { e.Buf = append(e.Buf, b) }
-func (e *Encoder) be16(v uint16)  { e.Buf = binary.BigEndian.AppendUint16(e.Buf, v) }
-func (e *Encoder) be32(v uint32)  { e.Buf = binary.BigEndian.AppendUint32(e.Buf, v) }
-func (e *Encoder) be64(v uint64)  { e.Buf = binary.BigEndian.AppendUint64(e.Buf, v) }
-func (e *Encoder) le64(v uint64)  { e.Buf = binary.LittleEndian.AppendUint64(e.Buf, v) }
+func (e *Encoder) byte1(b byte)  { e.Buf = append(e.Buf, b) }
+func (e *Encoder) be16(v uint16) { e.Buf = binary.BigEndian.AppendUint16(e.Buf, v) }
+func (e *Encoder) be32(v uint32) { e.Buf = binary.BigEndian.AppendUint32(e.Buf, v) }
+func (e *Encoder) be64(v uint64) { e.Buf = binary.BigEndian.AppendUint64(e.Buf, v) }
+func (e *Encoder) le64(v uint64) { e.Buf = binary.LittleEndian.AppendUint64(e.Buf, v) }
 func (e *Encoder) uleb(v uint64) {
 	for v >= 0x80 {
 		e.Buf = append(e.Buf, byte(v)|0x80)
